@@ -161,6 +161,8 @@ def write_roms(path, G, times, U, V, extra=None, storage="f8", write_vtransform=
                 dec = arr.astype("f4")
             else:
                 _, scale = storage
+                if name == "v":
+                    scale = 0.75 * scale   # every packed variable has its own scale factor
                 off = 0.0
                 if not is_vel:
                     off = float(np.round(arr.mean(), 3)) if arr.size else 0.0
